@@ -1,6 +1,7 @@
 #!/bin/bash
 # benign_regress.sh [lanes] : every behaviour-preserving patch of benign/R*/r*.diff against the current rules (snapshot of the
 # code, scratch worktrees). Any non-zero exit of a check is a false alarm (or an UNDECIDED). Rewrites benign/R*/rNN.result.
+exec 9>/tmp/regress.lock; flock 9   # one regression at a time (they share scratch worktrees)
 LANES=${1:-2}
 export VCODE=/tmp/vsnap_benign; rm -rf $VCODE; mkdir -p $VCODE
 rsync -a --exclude .git --exclude .cache --exclude seeded --exclude benign --exclude evidence --exclude reports /verif/ $VCODE/
